@@ -13,6 +13,10 @@
 //	const     (searcher) module constants vs the Go constants
 //	limit     size-limited functions with a small tengo.MaxStringLen (model = the wrapper's limit rule)
 //	finding-probe  inputs of the known findings
+//	coerce    (searcher, coerce.go) one argument replaced by another type / another spelling ("010", "08", "0x10", "1_0", " 7",
+//	          "0x1p4", "inf", 2.5, true, 'a', …): converted by the table of docs/runtime-types.md (written out in coerce.go,
+//	          not tengo.ToX) -> the Go function's value on the converted tuple; no conversion -> run-time error
+//	adapter-doc  the adapter stream's answers decided by the same table, without the model
 package main
 
 import (
@@ -55,10 +59,13 @@ func main() {
 	}
 	defer drv.Close()
 	res.DriverUsed = drv != nil
-	res.Rule = "adapter: all 44 adapters x all values of a 60-value sample of every runtime type (arity 1: all, arity 2: all pairs, arity 3: random), " +
+	res.Rule = "adapter: all 44 adapters x all values of a 64-value sample of every runtime type (arity 1: all, arity 2: all pairs, arity 3: random), " +
 		"8 probe/limit configurations, non-trivial when the wrapped function was reached; value: per table entry a fixed distinguishing corpus " +
 		"(every pair of same-shaped entries of a module is separated by it) plus random right-typed / coercible tuples (strings incl. non-UTF-8, " +
-		"ints, floats incl. specials, regexps from a grammar, UTC times), non-trivial when the Go reference returns a non-error value; distinct by canonical argument text"
+		"ints, floats incl. specials, regexps from a grammar, UTC times), non-trivial when the Go reference returns a non-error value; distinct by canonical argument text; " +
+		"coerce: per function entry, base tuples (fixed corpus, extra tuples with ints >= 8, 1 random) x every parameter position x a pool of other-typed values and " +
+		"boundary spellings (whole pool on the first tuple of every argument count, 4 random pool values on the others) + spellings derived from the base value; " +
+		"adapter-doc: every adapter case again, expected digest computed from the documented conversions"
 
 	only := ""
 	if flags.Replay != "" {
